@@ -11,6 +11,7 @@ import Sth.Model.Fsck
 import Driver.Img
 import Sth.Model.Translate
 import Sth.Model.Upgrade
+import Sth.Model.UpgradeBytes
 
 namespace Driver.Seq
 open Sth Driver
@@ -40,6 +41,8 @@ structure St where
   legacyOffsets : List Nat := []
   legacyDropped : List Nat := []     -- indexes of records that must not be readable afterwards (freed, bad offset, gone)
   legacyBad : List Nat := []
+  legacyDir : Option LegacyDir := none     -- the legacy directory as the harness wrote it
+  legacyBits : Nat := 0
   needSync : Bool := false
   -- C11 progress, from the implementation's own views
   c11Marked : Bool := false
@@ -213,8 +216,25 @@ def stepCore (st : St) (l : Line) : St × List Msg :=
     let spec' : SpecMap := ((List.range recs.length).zip recs).foldl (fun sp (i, (k, v)) =>
       if dropped.contains i then sp else sp.set ((indexKeyOf .mh k).getD []) k v) []
     ({ st with spec := spec', legacyRecs := recs, legacyOffsets := ((ra.get "offsets").splitOn ",").filterMap (·.toNat?),
-               legacyDropped := dropped, legacyBad := idxs "bad", needSync := true, store := {} },
+               legacyDropped := dropped, legacyBad := idxs "bad", needSync := true, store := {},
+               legacyBits := l.args.nat "bits",
+               legacyDir := (let parts := ((ra.get "img").splitOn ";").filterMap fun p => match p.splitOn "=" with
+                    | [n, v] => some (n, (fromHex v).getD [])
+                    | _ => none
+                  let get := fun (n : String) => (parts.find? (·.1 = n)).map (·.2)
+                  match get "data", get "index" with
+                  | some dt, some ix => some { data := dt, index := ix, free := get "index.free" }
+                  | _, _ => none) },
       (if rhead = "ok" then [] else [Msg.corr s!"legacy: {l.res}"]) ++ [Msg.flag "legacy"] ++
+      -- the Lean mirror of the legacy writer produces the same bytes (it is what the upgrade theorems quantify over)
+      (let parts := ((ra.get "img").splitOn ";").filterMap fun p => match p.splitOn "=" with
+          | [n, v] => some (n, (fromHex v).getD [])
+          | _ => none
+       let get := fun (n : String) => (parts.find? (·.1 = n)).map (·.2)
+       let mine := legacyOf (l.args.nat "bits") recs (idxs "freed") (idxs "bad") (idxs "gone") (l.args.get "stale" = "1")
+       if (ra.get "img") = "" then [] else
+       if some mine.data = get "data" ∧ some mine.index = get "index" ∧ mine.free.getD [] = (get "index.free").getD [] then [Msg.flag "legacy-writer-mirrored"]
+       else [Msg.corr s!"legacy: the Lean mirror of the legacy writer (legacyOf) differs from the bytes written: data {mine.data.length}/{((get "data").getD []).length} index {mine.index.length}/{((get "index").getD []).length} free {(mine.free.getD []).length}/{((get "index.free").getD []).length}"]) ++
       (if (idxs "freed").isEmpty then [] else [Msg.flag "legacy-freelist"]) ++ (if (idxs "bad").isEmpty then [] else [Msg.flag "legacy-bad-offset"]))
   | "rmsnap" => ({ st with store := { st.store with disk := { st.store.disk with snap := none } } }, [Msg.flag "reopen-rescan"])
   | "badsnap" =>
@@ -225,14 +245,40 @@ def stepCore (st : St) (l : Line) : St × List Msg :=
     if !st.needSync then fsckStep st l else
     -- synchronise the model from the real directory bytes (post-upgrade), then run the fsck on them
     let im := Driver.Img.parseImg (ra.get "img")
+    -- C10: the byte-level model of the upgrade (Sth/Model/UpgradeBytes.lean) run on the legacy bytes gives the directory the
+    -- real upgrading OpenStore left behind, file for file and byte for byte. The order in which the removal pool of unmappable
+    -- entries is flushed is a Go map order: some permutation of the affected buckets must reproduce the directory.
+    let upMsgs : List Msg := match st.legacyDir with
+      | none => []
+      | some L =>
+        let badBuckets := (st.legacyBad.filterMap fun i => (st.legacyRecs[i]?).bind fun (k, _) =>
+          (indexKeyOf .mh k).bind fun dg => bucketOfKey st.legacyBits dg).eraseDups
+        let rec perms : Nat → List Nat → List (List Nat)
+          | 0, _ => [[]]
+          | _, [] => [[]]
+          | fuel + 1, l => l.flatMap fun x => (perms fuel (l.erase x)).map (x :: ·)
+        let cands := (perms 4 (badBuckets.take 4)).take 24
+        let results := cands.map fun ord => upgradeStoreWith st.cfg L ord
+        if results.any (· == some im.disk) then [Msg.flag "upgrade-bytes-agree"] ++ (if badBuckets.length ≥ 2 then [Msg.flag "upgrade-removal-order"] else [])
+        else match results.head? with
+          | some (some d) =>
+            let diff := (if d.pfiles == im.disk.pfiles then [] else [s!"primary files model={showFiles d.pfiles} impl={showFiles im.disk.pfiles}"]) ++
+              (if d.ifiles == im.disk.ifiles then [] else [s!"index files model={showFiles d.ifiles} impl={showFiles im.disk.ifiles}"]) ++
+              (if d.ihdr == im.disk.ihdr then [] else ["index header"]) ++ (if d.phdr == im.disk.phdr then [] else ["primary header"]) ++
+              (if d.free == im.disk.free then [] else ["freelist"]) ++ (if d.freeGc == im.disk.freeGc then [] else ["freelist .gc"]) ++
+              (if d.snap == im.disk.snap then [] else ["snapshot"]) ++ (if d.cidfile == im.disk.cidfile then [] else ["cid file"])
+            [Msg.corr s!"upgrade: the model's directory differs from the real one in: {"; ".intercalate diff}"]
+          | _ => [Msg.corr "upgrade: the model refuses the legacy directory the real code upgraded"]
+    let (stx, msgsx) : St × List Msg := ({ st with legacyDir := none }, upMsgs)
+    let st := stx
     match openStoreR st.cfg im.disk with
     | (d', .ok m') =>
       let live := ((ra.get "buckets").splitOn ",").filter (· ≠ "")
       let mine := (m'.buckets.filter (·.2 ≠ 0)).map fun (b, p) => s!"{b}:{p}"
       let st' := { st with store := { disk := d', mem := some m' }, needSync := false }
       let (st'', msgs) := fsckStep st' l
-      (st'', (if live = mine then [] else [Msg.corr s!"after upgrade: live bucket table [{ra.get "buckets"}] differs from the table a rescan of the same files gives [{",".intercalate mine}]"]) ++ msgs)
-    | (_, .error e) => (st, [Msg.corr s!"model cannot open the upgraded directory: {openErrStr e}"])
+      (st'', msgsx ++ (if live = mine then [] else [Msg.corr s!"after upgrade: live bucket table [{ra.get "buckets"}] differs from the table a rescan of the same files gives [{",".intercalate mine}]"]) ++ msgs)
+    | (_, .error e) => (st, msgsx ++ [Msg.corr s!"model cannot open the upgraded directory: {openErrStr e}"])
   | "chunks" =>
     -- C10 pure core against the real files: chunk sizes and remapped locations
     let pfs := if st.cfg.pfs = 0 then defaultMax else st.cfg.pfs
